@@ -104,10 +104,20 @@ def _float_count():
                      st.floats(-3, 3).map(lambda x: float("%.6g" % 10 ** x)))
 
 
+def common_factor():
+    """1 mostly; otherwise a common multiplier of all counts over 24 decades (the results do not
+    depend on the size of the unit cell)."""
+    return st.one_of(st.just(1), st.just(1), st.just(1),
+                     st.floats(-12, 12).map(lambda x: float("%.6g" % 10 ** x)),
+                     st.sampled_from([1e-12, 1e-10, 1e-9, 1e9, 1e12]))
+
+
 def flat_compound(max_atoms=8, atoms=None):
     a = atoms if atoms is not None else atom_spec()
-    return st.lists(st.tuples(a, _float_count()).map(list), min_size=1, max_size=max_atoms,
-                    unique_by=lambda t: tuple(_canon(t[0]))).map(lambda l: {"kind": "dict", "atoms": l})
+    base = st.lists(st.tuples(a, _float_count()).map(list), min_size=1, max_size=max_atoms,
+                    unique_by=lambda t: tuple(_canon(t[0])))
+    return st.tuples(base, common_factor()).map(
+        lambda t: {"kind": "dict", "atoms": [[sp, n if t[1] == 1 else n * t[1]] for sp, n in t[0]]})
 
 
 def _canon(spec):
@@ -126,8 +136,14 @@ def compound(depth=2):
 
 
 def density_value():
+    """(0, 25] g/cm^3: ordinary condensed matter values, and log-uniform down to 1e-12 (dilute
+    gases) with a share of the extreme tail."""
+    lg = lambda lo, hi: st.floats(lo, hi).map(lambda x: float("%.6g" % 10 ** x))
     return st.one_of(st.integers(1, 25000).map(lambda k: k / 1000.0),
-                     st.integers(1, 999).map(lambda k: k / 100000.0))
+                     st.integers(1, 25000).map(lambda k: k / 1000.0),
+                     st.integers(1, 999).map(lambda k: k / 100000.0),
+                     lg(-12, math.log10(25.0)), lg(-12, -8),
+                     st.sampled_from([1e-12, 1.8e-9, 5e-10, 1e-9, 25.0]))
 
 
 def density_arg(tag=True):
@@ -150,14 +166,18 @@ def one_wavelength():
         st.sampled_from([0.05, 50.0, 1.798, 4.75, 0.2, 12.0]))
 
 
-def wavelength_arg(max_len=6, forms=("scalar", "scalar", "int", "list", "array", "array2d"), by=("wavelength", "energy")):
+SCALAR_FORMS = ("scalar", "int", "np.float32", "np.float64", "np.int64", "0d", "0d-int")
+INT_FORMS = ("int", "np.int64", "0d-int", "intlist", "inttuple", "intarray32", "intarray64")
+VECTOR_FORMS = ("list", "tuple", "array", "array2d", "intlist", "inttuple", "intarray32", "intarray64")
+ALL_FORMS = ("scalar", "scalar", "scalar", "int", "np.float32", "np.float64", "np.int64", "0d", "0d-int",
+             "list", "tuple", "array", "array", "array2d", "intlist", "intlist", "inttuple", "intarray32", "intarray64")
+
+
+def wavelength_arg(max_len=6, forms=ALL_FORMS, by=("wavelength", "energy")):
     def mk(t):
         form, how, lams, r = t
-        if form in ("scalar", "int"):
+        if form in SCALAR_FORMS:
             lams = lams[:1]
-        if form == "int":
-            lams = [float(max(1, min(50, int(round(lams[0])))))]
-            how = "wavelength"
         shape = None
         if form == "array2d":
             n = len(lams)
@@ -167,6 +187,55 @@ def wavelength_arg(max_len=6, forms=("scalar", "scalar", "int", "list", "array",
         return {"form": form, "by": how, "lams": lams, "shape": shape}
     return st.tuples(st.sampled_from(forms), st.sampled_from(by),
                      st.lists(one_wavelength(), min_size=1, max_size=max_len), st.integers(0, 11)).map(mk)
+
+
+def wl_values(form, by, lams):
+    """(numbers handed to the library, wavelengths at which the reference judges them).
+    Integer forms carry whole Angstrom / whole meV; np.float32 carries the float32 value."""
+    E = env()
+    np, R = E["np"], E["ref"]
+    vals = [R.energy(l) for l in lams] if by == "energy" else list(lams)
+    if form in INT_FORMS:
+        hi = 50 if by == "wavelength" else 10 ** 6
+        vals = [max(1, min(hi, int(round(x)))) for x in vals]
+    elif form == "np.float32":
+        vals = [float(np.float32(x)) for x in vals]
+    ref = [R.wavelength(float(x)) for x in vals] if by == "energy" else [float(x) for x in vals]
+    return vals, ref
+
+
+def wl_object(form, vals, shape=None):
+    """(argument object, expected shape of the outputs)"""
+    np = env()["np"]
+    n = len(vals)
+    if form in ("scalar", "int"):
+        return vals[0], ()
+    if form == "np.float32":
+        return np.float32(vals[0]), ()
+    if form == "np.float64":
+        return np.float64(vals[0]), ()
+    if form == "np.int64":
+        return np.int64(vals[0]), ()
+    if form in ("0d", "0d-int"):
+        return np.array(vals[0]), ()
+    if form in ("list", "intlist"):
+        return list(vals), (n,)
+    if form in ("tuple", "inttuple"):
+        return tuple(vals), (n,)
+    if form == "array":
+        return np.array(vals, dtype=float), (n,)
+    if form == "intarray32":
+        return np.array(vals, dtype=np.int32), (n,)
+    if form == "intarray64":
+        return np.array(vals, dtype=np.int64), (n,)
+    if form == "array2d":
+        return np.array(vals, dtype=float).reshape(tuple(shape)), tuple(shape)
+    raise ValueError(form)
+
+
+def wl_rel(form):
+    """float32 input gives float32 precision in the outputs that are proportional to it"""
+    return 1e-6 if form == "np.float32" else REL
 
 
 # ----------------------------------------------------------------------
@@ -214,25 +283,8 @@ def build_density(d, obj, comp):
 
 def build_wavelength(w):
     """(kwargs, [lambda...] as the reference sees them, expected output shape or () for scalar)"""
-    E = env()
-    np, R = E["np"], E["ref"]
-    lams = list(w["lams"])
-    vals = lams
-    if w["by"] == "energy":
-        vals = [R.energy(l) for l in lams]
-        lams = [R.wavelength(e) for e in vals]
-    form = w["form"]
-    if form == "scalar":
-        arg, shape = vals[0], ()
-    elif form == "int":
-        arg, shape = int(vals[0]), ()
-    elif form == "list":
-        arg, shape = list(vals), (len(vals),)
-    elif form == "array":
-        arg, shape = np.array(vals, dtype=float), (len(vals),)
-    else:
-        shape = tuple(w["shape"])
-        arg = np.array(vals, dtype=float).reshape(shape)
+    vals, lams = wl_values(w["form"], w["by"], list(w["lams"]))
+    arg, shape = wl_object(w["form"], vals, w.get("shape"))
     return {("energy" if w["by"] == "energy" else "wavelength"): arg}, lams, shape
 
 
